@@ -72,7 +72,7 @@ def main():
         else:
             rc, out, t = sh("make -j16 2>&1 | tail -5", cwd=wt)
             res["builds"] = os.path.exists(os.path.join(wt, "build/janet"))
-            rc, out, t = sh("flock /var/tmp/janet-verif/.suite.lock make test 2>&1 | tail -15", cwd=wt, timeout=1800)
+            rc, out, t = sh("flock /var/tmp/janet-verif/.suite.lock timeout -k 10 900 make test 2>&1 | tail -15", cwd=wt, timeout=3600)  # a hung suite must not keep the machine-wide lock
             res["suite"] = {"rc": rc, "tail": out[-600:], "s": round(t, 1)}
             res["tests_pass"] = ("All tests passed" in out) or (rc == 0 and "failed" not in out.lower())
             rc, out, t = sh(demo_cmd, cwd=wt, timeout=600)
